@@ -72,6 +72,10 @@ func Instances(backend string, n, msgLen int) map[uint16]tss.KeyGenerator {
 	return inst
 }
 
+// CtxFor, if set, supplies the context of a party's KeyGen call (fault cells that let one party's
+// deadline land at a chosen point). Set and reset by the case that uses it.
+var CtxFor func(id uint16, base context.Context) context.Context
+
 // DKGOn runs Init + KeyGen on the given instances (which may have been used before).
 func DKGOn(inst map[uint16]tss.KeyGenerator, parties []uint16, t int, hook SendHook, timeout time.Duration) (map[uint16][]byte, map[uint16]error) {
 	for _, id := range parties {
@@ -103,7 +107,11 @@ func DKGOn(inst map[uint16]tss.KeyGenerator, parties []uint16, t int, hook SendH
 		wg.Add(1)
 		go func() {
 			defer wg.Done()
-			d, err := inst[id].KeyGen(ctx)
+			kctx := context.Context(ctx)
+			if CtxFor != nil {
+				kctx = CtxFor(id, ctx)
+			}
+			d, err := inst[id].KeyGen(kctx)
 			mu.Lock()
 			shares[id], errs[id] = d, err
 			mu.Unlock()
